@@ -13,6 +13,9 @@
                       the node is removed (later eliminations must see earlier fill-in edges)
   tree-connected      the clique graph handed to the spanning-tree routine links EVERY pair of maximal cliques (also attribute-disjoint
                       ones): BP normalises all beliefs by the logZ of one clique, which is only valid on a connected tree
+  tree-state-unchanged
+                      every in-place operation in the junction tree's search / construction methods acts on containers of the call, never
+                      (through any alias) on containers stored on the object: the greedy search runs repeatedly on one object
 Not decided: equality with brute-force marginals; independence of the elimination / message order; validity of the junction tree
 for all graphs (C12, not applicable).
 """
@@ -48,6 +51,39 @@ def run(ctx):
     check_inf_guard(ctx)
     check_fill_in(ctx)
     check_tree_connected(ctx)
+    check_tree_state(ctx)
+
+
+def check_tree_state(ctx):
+    """The junction tree's search and construction methods are run many times on one object (an integer `elimination_order` runs the
+    greedy search once per trial; maximal_cliques / mp_order / separator_axes are queried by every model): each works on containers of
+    its own.  An in-place operation that reaches a container stored on the object (through any alias) changes what the next run sees."""
+    scope = Scope(ctx.repo, [JT, 'src/mbi/domain.py'], {})
+    scope.solve()
+    n = 0
+    seen = set()
+    for (rel, q), summ in scope.summaries.items():
+        if rel != JT or not q.startswith('JunctionTree.') or q == 'JunctionTree.__init__':
+            continue
+        fi = ctx.repo.nfunc(JT, q) if '<locals>' not in q else None
+        if fi is None:
+            continue
+        for site in summ.sites:
+            k = (q, getattr(site.node, 'lineno', 0), getattr(site.node, 'col_offset', 0), site.what)
+            if k in seen:
+                continue
+            seen.add(k)
+            n += 1
+            bad = sorted(t for t in site.origins if t.startswith(('S:', 'P:', 'Pe:')) and not t.endswith(':self'))
+            # memo tables on the object are bookkeeping, judged on their own by the memo engine (memo-key)
+            from ..engines import memo as _memo
+            info_ = _memo.ClassInfo(ctx.repo, fi.module, 'JunctionTree')
+            bad = [t for t in bad if not (t.startswith('S:') and (_memo.is_table(info_, t[2:]) or t[2:].endswith('_stamp')))]
+            ctx.ob('tree-state-unchanged', fi, site.node, not bad,
+                   '%s acts on %s' % (site.what, 'containers of this call' if not bad else
+                                      'state of the junction tree (%s): the next run of the search on the same object starts from the modified '
+                                      'container' % ', '.join(bad)))
+    ctx.floor('in-place sites in the junction-tree methods', n, 15)
 
 
 def check_copies(ctx, bp):
@@ -214,6 +250,11 @@ def check_equations(ctx, bp):
     st = [x for x in ex.stores if x[1] == KEY]
     where = st[0][0] if st else loop
     val = st[0][2] if st else None
+    # the reverse message lives on the separator only (it was marginalised onto it), so dividing it out commutes with marginalising
+    # over the rest of the clique:  lse_S(B - m) = lse_S(B) - m.  One normal form: the subtraction inside.
+    if val is not None and val[0] == 'cond' and val[1] == ('has', REV) and val[3][0] == 'lse' and val[2] == ('sub', val[3], ('msg', REV)) \
+            and val[3] in [('lse', ('belief', I), m_[2]) for m_ in MSG]:
+        val = ('lse', ('cond', val[1], ('sub', val[3][1], ('msg', REV)), val[3][1]), val[3][2])
     tau_ok = val is not None and val[0] == 'lse' and val[1] == TAU
     ctx.ob('bp-equations', bp, where, tau_ok and not raw,
            'outgoing message must exclude what came from the receiver: it is computed from beliefs[%s] - messages[(%s, %s)] when that '
